@@ -1,5 +1,6 @@
 """Seeded generation of simulation specs (world + task programs + engine configuration + faults) for the
 scheduler-based properties (C10, C07 race mode, C02 history clause).  Plain data only."""
+import random
 from pbsim import gen
 from pbsim.names import DIMS, SLOTS
 from pbsim.world import empty_world
@@ -101,6 +102,11 @@ def gen_shot(rng, w, weapon_id, steep_p=0.15):
          "cant": gen.gen_angle_deg(rng, gen.pick(rng, [0.0, 0.0, 0.0, round(rng.uniform(-20, 20), 1)]))}
     wl = rng.randrange(len(w["windlists"]) + 1)
     s["winds"] = None if wl == len(w["windlists"]) or not w["windlists"][wl] else wl
+    # the DEFAULT sight line - look angle exactly 0 - is what most real shots have, and code may special-case it
+    # (side stream derived from the generator's state without consuming it: the other draws of a seed stay as they were)
+    r2 = random.Random(repr(rng.getstate()[1][:6]))
+    if r2.random() < 0.35:
+        s["look"] = [0.0, gen.pick(r2, ["Degree", "Radian", "MOA"])]
     return s
 
 
